@@ -32,15 +32,17 @@ def main() -> int:
                     viol.append(l[:230])
             return p, r.returncode, viol
 
-        fired = []
+        fired, broken = [], []
         with ThreadPoolExecutor(8) as ex:
             for p, rc, viol in ex.map(run, props):
                 if rc != 0:
-                    fired.append(p)
+                    (fired if rc == 1 else broken).append(p)
                     print(f'{p} rc={rc}')
                     for v in viol:
                         print('    ', v)
+        # exit 1 = a VIOLATION was reported; exit 2 = the analysis could not decide (ANALYSIS-ERROR): that is not a verdict and is listed apart
         print('FIRED:', ' '.join(fired) if fired else '(none)')
+        print('UNDECIDED:', ' '.join(broken) if broken else '(none)')
         return 0
     finally:
         subprocess.run(['git', '-C', '/repo', 'worktree', 'remove', '--force', os.path.join(tmp, 'wt')], capture_output=True)
